@@ -107,6 +107,15 @@ theorem C04_file_eof (rows cols ty : Nat) (hty : ty < 2^64) (kvs : KV) (hs : Sor
   refine ⟨m, hm, fun {σ} A hA min max => ?_⟩
   exact eof_transport (hall (eofLift A) (fun _ => rfl) (eofLift_canSound A hA.canSound) min max)
 
+/-- the crate's combinators do NOT forward the hook (`Union`, `Intersection`, `Complement`,
+`StartsWith` keep the trait's default `accept_eof`): a hooked automaton inside a combinator is
+searched by its plain language (`C04_search` applies). Observed on the real crate by the
+`co(dfe:…)` / `un(dfe:…,…)` cases of the correspondence. -/
+theorem C04_combinators_drop_hook {τ : Type} (A : Aut σ) (B : Aut τ) :
+    (∀ x, (autUnion A B).acceptEof x = none) ∧ (∀ x, (autInter A B).acceptEof x = none) ∧
+    (∀ x, (autCompl A).acceptEof x = none) ∧ (∀ x, (autStartsWith A).acceptEof x = none) :=
+  ⟨fun _ => rfl, fun _ => rfl, fun _ => rfl, fun _ => rfl⟩
+
 /-- non-vacuity: an automaton with a hook AND a pruning state meets `ContractEof`, and the hook
 changes what is accepted -/
 def hookPrune : Aut Nat where
